@@ -356,3 +356,55 @@ pub fn gen_c16(tier: &str, seed: u64) -> Vec<Vec<String>> {
     v.extend(crate::props::names::gen_names_cases("C16", tier, seed));
     v
 }
+
+/// C04: flush / shutdown / handle drop through a real `Logger` and its `LoggerHandle`
+pub fn gen_c04(tier: &str, seed: u64) -> Vec<Vec<String>> {
+    let mut root = Rng::new(seed ^ 0xC04);
+    let mut cases = Vec::new();
+    for k in 0..n_cases(tier, 300, 5000) {
+        let mut r = root.fork();
+        let mut c = vec![format!("CASE flw C04 {k}")];
+        let naming = *r.pick(&NAMINGS);
+        let (spec, has_suffix) = gen_spec(&mut r, naming);
+        c.push(spec);
+        c.push("VIA logger".into());
+        let n: u64 = *r.pick(&[5, 40, 300]);
+        let rot = if r.chance(1, 3) { None } else { Some(format!("{n};_;{naming};never")) };
+        let (mode, cap, is_async) = match r.below(6) {
+            0 => ("direct".to_string(), None, false),
+            1 | 2 => { let cc = *r.pick(&[16u64, 100, 8192]); (format!("buf:{cc}"), Some(cc), false) }
+            3 => { let cc = *r.pick(&[16u64, 100, 8192]); (format!("bufflush:{cc}"), Some(cc), false) }
+            _ => (format!("async:{}:{}", r.pick(&[1u64, 3, 50]), r.pick(&[0u64, 10, 200])), None, true),
+        };
+        c.push(format!("MODE {mode}"));
+        c.push(format!("CFG {}", cfg_line(&rot, false, cap, false, has_suffix)));
+        let mut clock = Clock::new(&mut r);
+        let nops = r.range(2, if tier == "thorough" { 80 } else { 30 });
+        let mut seq = 0;
+        let mut clones = 0;
+        for _ in 0..nops {
+            match r.below(14) {
+                0 if !is_async => { c.push("LFLUSH".into()); c.push("READ".into()); }
+                0 => { c.push("LFLUSH".into()); }
+                1 => { c.push("LCLONE".into()); clones += 1; }
+                // dropping a clone in async mode stops the writer thread (known finding, directed corpus case)
+                2 if clones > 0 && !is_async => { c.push("LDROPCLONE".into()); clones -= 1; c.push("READ".into()); }
+                _ => {
+                    // volumes above and below the buffer
+                    let len = match r.below(5) { 0 => 1, 1 => cap.unwrap_or(50).min(400) + 3, 2 => n + 1, _ => r.range(2, 60) };
+                    let now = if is_async { clock.now() } else { clock.tick(&mut r) };
+                    c.push(format!("LW {} {now}", hex(&record(seq, len))));
+                    seq += 1;
+                    if cap.is_none() && !is_async && r.chance(1, 4) { c.push("READ".into()); }
+                }
+            }
+        }
+        // the point at which the logger ends: shutdown() or drop of the last handle; read immediately
+        c.push(if r.chance(1, 2) { "LSHUT".into() } else { "LDROPALL".into() });
+        c.push("READ".into());
+        c.push("PARTS".into());
+        c.push("END".into());
+        cases.push(c);
+    }
+    cases
+}
